@@ -92,6 +92,10 @@ pub const TOK: &[&str] = &[
     "new mode 100755\n",
     "new file mode 100644\n",
     "deleted file mode 100644\n",
+    "old mode 000644\n",
+    "new mode 000755\n",
+    "new file mode 120000\n",
+    "deleted file mode 040000\n",
     "rename from f\n",
     "rename to g\n",
     "copy from f\n",
